@@ -364,7 +364,7 @@ PROPS = {
     ),
     "C13": dict(
         module="Hb.Props.C13",
-        ties=[("scen", "churn-long", 12, 600), ("scen", "churn", 250, 8000), ("scen", "saturate", 100, 3000), ("t1", {})],
+        ties=[("scen", "churn-long", 12, 600), ("scen", "churn-window", 16, 600), ("scen", "churn", 250, 8000), ("scen", "saturate", 100, 3000), ("t1", {})],
         backends=["sse2", "portable"],
         design="§7 C13",
         text="Lean theorems for every environment and every insert/get/get_mut/remove/remove_entry history of unbounded length "
@@ -453,12 +453,12 @@ def run_ties(pid, cfg, tier, seed, workdir, stats):
                 nb = n if b == "sse2" else max(20, n // 3)
                 core.correspond(pid, tier, b, ["gen", profile, gen_seed(seed, zlib.crc32(profile.encode()) % 97), nb], workdir, stats)
         elif kind == "t1":
-            t1_tie(pid, stats)
+            t1_tie(pid, stats, (tier, seed, workdir))
         elif kind == "custom":
             tie[1](pid, tier, seed, workdir, stats)
 
 
-def t1_tie(pid, stats):
+def t1_tie(pid, stats, ctx=None):
     """Regenerate Hb/Gen/Pure.lean from /repo and re-check Gen = Model (if the translator exists)."""
     tr = os.path.join(core.VERIF, "translate", "rust2lean.py")
     geneq = os.path.join(core.LEAN, "Hb", "Proofs", "GenEq.lean")
@@ -468,12 +468,30 @@ def t1_tie(pid, stats):
     out = os.path.join(core.LEAN, "Hb", "Gen", "Pure.lean")
     rc, log = core.sh(["python3-vt", tr, "--repo", core.REPO, "--out", out], timeout=600)
     if rc != 0:
+        if ctx is not None:
+            tier, seed, workdir = ctx
+            try:
+                core.correspond(pid, tier, "sse2", ["genpure", gen_seed(seed, 1), "quick"], workdir, stats)
+            except Violation as v:
+                if v.found_input:
+                    raise Violation("T1: translation of the pure functions failed; " + v.what,
+                                    "# translator output\n# " + log[-1500:].replace("\n", "\n# ") + "\n" + v.replay_text, True)
         raise Violation("T1: translation of the pure functions failed (source outside the accepted subset or changed shape)",
                         "# translator output\n" + log[-3000:] + "\n# theorem/tie that no longer checks: Hb.Proofs.GenEq (generated definitions)\n", False)
     rc, log = core.sh(["lake", "build", "Hb.Proofs.GenEq"], cwd=core.LEAN, timeout=1800)
     stats["notes"].append("T1: Hb/Gen/Pure.lean regenerated from /repo, Hb.Proofs.GenEq rebuilt")
     if rc != 0:
         errs = "\n".join(l for l in log.splitlines() if "error" in l)[:3000]
+        # the tie is broken: search for a concrete failing input by evaluating the real functions on the
+        # boundary-dense pure-function batch (direct arithmetic oracle, panics and aborts are journalled)
+        if ctx is not None:
+            tier, seed, workdir = ctx
+            try:
+                core.correspond(pid, tier, "sse2", ["genpure", gen_seed(seed, 1), "quick"], workdir, stats)
+            except Violation as v:
+                if v.found_input:
+                    raise Violation("T1: generated definition no longer equals the model (Hb.Proofs.GenEq does not check); " + v.what,
+                                    "# lemma(s) of Hb.Proofs.GenEq that no longer check:\n# " + errs.replace("\n", "\n# ") + "\n" + v.replay_text, True)
         raise Violation("T1: generated definition no longer equals the model (Hb.Proofs.GenEq does not check)",
                         "# lemma(s) of Hb.Proofs.GenEq that no longer check:\n" + errs + "\n", False)
 
